@@ -60,7 +60,11 @@ def run():
     cf = ck.pick(CONFIGS4, CONFIGS8)
     Ns = ck.pick([128], [128, 512])
     R = ck.pick(48, 96)
-    cells = [dict(target=t, N=N, n_total=8 * N, mode="vec", **c) for t in tg for c in cf for N in Ns]
+    # one cell with a long history of large batches (pool x iterations > 2.5e6 mixture terms per weight evaluation): an evidence error
+    # that only appears when the particle count is increased shows here.  ~30 s per run, hence its own replicate count; first in
+    # the list so that its replicates start first
+    cells = [dict(target="gauss2", N=4096, n_total=80000, mode="vec", kernel="tpcn", resample="mult", clustering=False, reps=ck.pick(16, 32))]
+    cells += [dict(target=t, N=N, n_total=8 * N, mode="vec", **c) for t in tg for c in cf for N in Ns]
     for N in Ns:
         for kern in ("tpcn", "rwm"):
             cells.append(dict(target="gauss2", N=N, n_total=8 * N, mode="vec", kernel=kern, resample="syst", clustering=False, volume_variation=1.0))
@@ -83,14 +87,14 @@ def run():
     flagged = []
     # campaign with the hashing runner
     orig = ensemble.campaign
-    ensemble.campaign = lambda ck_, cells_, R_, tag, func="tvf.checks.c02:run_with_hashes", timeout=600: orig(ck_, cells_, R_, tag, func=func, timeout=timeout)
+    ensemble.campaign = lambda ck_, cells_, R_, tag, func="tvf.checks.c02:run_with_hashes", timeout=900, R0=None: orig(ck_, cells_, R_, tag, func=func, timeout=timeout, R0=R0)
     try:
         table = ensemble.judge(ck, cells, extract, R, "c02", lambda cfg, name, r1, r2: flagged.append((cfg, r1, r2)))
     finally:
         ensemble.campaign = orig
     confirmed = {ensemble.cell_key(c) for c, _, _ in flagged}
     for cfg, r1, r2 in flagged:
-        if not ck.quick and cfg["N"] != Nmax and ensemble.cell_key(dict(cfg, N=Nmax, n_total=8 * Nmax)) not in confirmed:
+        if not ck.quick and cfg["N"] < Nmax and ensemble.cell_key(dict(cfg, N=Nmax, n_total=8 * Nmax)) not in confirmed:
             ck.note(f"evidence offset at N={cfg['N']} not present at N={Nmax}: {cfg['target']} {cfg['kernel']} b={r1['b']:+.4f}")
             continue
         key = mech_key(cfg)
